@@ -1239,6 +1239,20 @@ class Interp:
                 ctx.oblige('%s/stack-depth' % site, z3.And(c.depth[0](cx) >= 0, c.depth[0](cx) < fr0.depth0), kind='depth')
             elif c.decreases is None:
                 ctx.oblige('%s/recursion-without-measure' % site, z3.BoolVal(False), kind='depth')
+        arg0 = {n: list(v.terms()) for n, v in loc.items() if isinstance(v, (VList, VDict))}
+        cx.arg0 = arg0
+        for n in c.mutates:
+            v = loc.get(n)
+            if isinstance(v, VEmptyList):
+                raise OutOfSubset('mutable argument %s is an untyped empty container' % n)
+            if isinstance(v, VList):
+                v.seqs = [ctx.fresh('mut_' + n + sfx, so) for sfx, so in v.T.comps()]
+                v.view = None
+                ctx.writeback(v)
+            elif isinstance(v, VDict):
+                terms = [ctx.fresh('mut_' + n + sfx, so) for sfx, so in v.T.comps()]
+                v.dom, v.vals = terms[0], terms[1:]
+                ctx.writeback(v)
         self.havoc_log = {}
         if c.modifies:
             for ref, fld in c.modifies(cx):
@@ -1255,6 +1269,10 @@ class Interp:
         conds = [z3.BoolVal(True)] * (1 + len(excs))
         k = ctx.choose(conds) if excs else 0
         cx2 = Cx(ctx, loc, old_heap, ctx.heap, result)
+        cx2.arg0 = arg0
+        if not hasattr(ctx, 'call_results'):
+            ctx.call_results = {}
+        ctx.call_results.setdefault(c.name, []).append(result)
         if k == 0:
             if excs and not c.may_raise_any:
                 # normal return excludes the conditions under which an exception is mandatory
